@@ -6,7 +6,9 @@ spec/reloader/ReloaderTrace.tla (judge) quotes its sentence:
   safety   ReloadOnlyOnChange, FirstSightRecords, NeverForExcluded, ReloadOnlyObserved, ReloadExitsWith3 / WatcherCrash
            (a file that disappears is skipped), ScanMissesNothing / ChangeMissed, RestartOnlyAfter3, StopsWithChildCode,
            ChildRunsMain (WERKZEUG_RUN_MAIN=true), SameArguments, OneChild, RegularInterval, AppThreadStarted, MainOnlyInChild,
-           ArgsReconstructInvocation (_get_args_for_reloading), EchoEnabled / EchoNoCrash (ensure_echo_on)
+           ArgsReconstructInvocation (_get_args_for_reloading), EchoEnabled / EchoNoCrash (ensure_echo_on),
+           WdReloadOnlyOnChange, WdIgnoredEventTypes, WdNeverForExcluded, WdReloadOnlyObserved, WdChangeMissed,
+           WdExitAfterChange, WdExitsWith3, WdWatchCovers (WatchdogReloaderLoop)
   liveness (weak fairness of the watcher thread and of the parent) ChangeLeadsToReload, ChangeLeadsToNewChild,
            Exit3LeadsToRestart, OtherExitLeadsToStop, KeepsScanning
 
@@ -21,9 +23,11 @@ spec/reloader/ReloaderTrace.tla (judge) quotes its sentence:
    are executed on the real code in-process (harness/reloader.py: real restart_with_reloader / run_with_reloader, real
    StatReloaderLoop over a scratch directory with os.utime-set mtimes; subprocess.call, time.sleep, threading.Thread and
    sys.modules / sys.path supplied by the harness; no thread, no sleeping).
-3. code -> spec: seeded random longer schedules (more files, all file kinds, fnmatch patterns, events between the stats
-   of a scan, KeyboardInterrupt, both drivers), _get_args_for_reloading over every way of invocation, ensure_echo_on on
-   a pseudo terminal.
+3. code -> spec: directed and seeded random longer schedules (more files, all file kinds, fnmatch patterns, events
+   between the stats of a scan, KeyboardInterrupt, both drivers), _get_args_for_reloading over every way of invocation,
+   ensure_echo_on on a pseudo terminal, and - watchdog being importable - the real WatchdogReloaderLoop with a stub
+   observer and synthetic events (Wd... clauses: reload only for change events on observed, non-excluded files; opened /
+   closed-no-write ignored; exit 3 after the change; the watched directories cover every observed file).
 Every recorded run is judged by ReloaderTrace.tla (TLC).  Python records, TLC decides.
 """
 from __future__ import annotations
@@ -80,6 +84,8 @@ def _exec(job):
         return rl.run_args(case, _TMP)
     if kind == "echo":
         return rl.run_echo(case, _TMP)
+    if kind == "wd":
+        return rl.run_wd(case, _TMP)
     raise ValueError(kind)
 
 
@@ -100,6 +106,10 @@ def _check_mutant(ctx: Ctx, name: str):
 
 def _key(case, ln, r):
     cl, step = r["clause"], r.get("step", 0)
+    if ln["op"] == "wd":
+        f = r.get("file", 0)
+        e = ln["ev"][step - 1] if 0 < step <= len(ln["ev"]) else {"e": "-"}
+        return f"{cl}:wd:{e['e']}:{case['files'][f - 1]['kind'] if 0 < f <= len(case['files']) else '-'}:{rl.wd_label(case)}"
     if ln["op"] != "case":
         return f"{cl}:{ln['op']}:{ln['kind']}"
     e = ln["ev"][step - 1] if 0 < step <= len(ln["ev"]) else {"e": "-", "f": 0}
@@ -109,6 +119,15 @@ def _key(case, ln, r):
 
 
 def _show(case, ln, r=None):
+    if ln["op"] == "wd":
+        evs = []
+        for e in ln["ev"]:
+            d = {k: v for k, v in e.items() if k in ("e", "s", "f", "m", "c") and v not in ("", 0)}
+            if e["e"] == "wd_watch":
+                d["dir"] = "".join(map(chr, e["a"][0]))
+            evs.append(d)
+        return {"op": "wd", "case": case, "patterns": ["".join(map(chr, p)) for p in ln["pats"]],
+                "paths": ["".join(map(chr, f["path"])) for f in ln["files"]], "events": evs, "failing_event": (r or {}).get("step", 0)}
     if ln["op"] != "case":
         out = {"op": ln["op"], "case": case}
         if ln["op"] == "args":
@@ -131,6 +150,10 @@ def _show(case, ln, r=None):
 
 
 def _nontrivial(ctx, case, ln):
+    if ln["op"] == "wd":
+        ctx.nontrivial.add(("wd", len(case["pats"]) > 0, tuple((e["e"], e["s"], case["files"][e["f"] - 1]["kind"] if e["f"] else "")
+                                                               for e in ln["ev"] if e["e"] in ("wd_event", "wd_flag", "exit"))))
+        return
     if ln["op"] != "case":
         ctx.nontrivial.add((ln["op"], ln["kind"], len(ln.get("rest", []))))
         return
@@ -275,8 +298,10 @@ def run(ctx: Ctx):
                 "model + random walks over it + seeded random longer ones.  Non-trivial = distinct (driver, patterns?, sequence of "
                 "fs events / scan outcomes / exits by file kind) with at least one fs event after start-up or a reload")
     ctx.assumptions += [
-        "stat reloader only in the replay; WatchdogReloaderLoop (watchdog 5.0.3 is importable here, so reloader_type='auto' selects it) "
-        "needs observer threads and inotify and is not driven; _find_watchdog_paths is not judged",
+        "WatchdogReloaderLoop (watchdog is importable here, so reloader_type='auto' selects it) is driven without its observer "
+        "thread: a stub observer records schedule() calls and synthetic watchdog events are dispatched to the loop's real event "
+        "handler while its real run() sleeps; inotify itself and the order / coalescing of real events are not exercised. Event "
+        "types 'deleted', 'moved away', 'closed' on an observed file may or may not reload (not stated)",
         "the child process is simulated in-process: subprocess.call is replaced by a function that runs the child's real code "
         "(StatReloaderLoop / run_with_reloader) to its SystemExit; time.sleep, threading.Thread, sys.modules / sys.path / argv / stdin "
         "and os.stat (as a hook point only) are supplied by the harness; SIGTERM handling is not exercised",
@@ -324,6 +349,10 @@ def run(ctx: Ctx):
         jobs.append(("args", c))
     for c in rl.ECHO_CASES:
         jobs.append(("echo", c))
+    ctx.notes["watchdog_importable"] = rl.watchdog_available()
+    if rl.watchdog_available():
+        for c in rl.wd_cases(rng, 250 if q else 8000):
+            jobs.append(("wd", c))
     judge_jobs(ctx, jobs, extra_lines=glob_selftest(rng, 100 if q else 3000))
 
 
